@@ -57,6 +57,31 @@ def _mc_index(pid, tier, appends, damage):
                          timeout=600 if tier == QUICK else 3000)
 
 
+def _tlaps_index(pid):
+    """IndexRefine.tla: the UNBOUNDED statements (any log length, any key set) proved by TLAPS:
+    the append-only log refines a map (InitInv, NextInv), damage of one record is contained to
+    its key (DamageContained), a lookup is a function of the log (YieldsUnique).  MC_Index checks
+    (invariant RefinesAbstract) that the fold of the token-level model is that lookup."""
+    import subprocess, time, re
+    wd = os.path.join(WORK, pid, "tlaps")
+    shutil.rmtree(wd, ignore_errors=True)
+    os.makedirs(wd, exist_ok=True)
+    shutil.copy(os.path.join(SPEC, "IndexRefine.tla"), wd)
+    t0 = time.time()
+    try:
+        r = subprocess.run(["timeout", "900", "tlapm", "--threads", "8", "IndexRefine.tla"], cwd=wd,
+                           capture_output=True, text=True)
+    except FileNotFoundError:
+        raise ToolError("tlapm not found")
+    out = r.stdout + r.stderr
+    m = re.search(r"All (\d+) obligations proved", out)
+    if not m or int(m.group(1)) < 100:
+        raise ToolError("TLAPS did not prove IndexRefine.tla:\n" + out[-2500:])
+    shutil.rmtree(os.path.join(wd, ".tlacache"), ignore_errors=True)
+    return {"module": "IndexRefine", "cfg": "tlapm: %s proof obligations, unbounded log length and key set" % m.group(1),
+            "states": 0, "transitions": 0, "wall": round(time.time() - t0, 1)}
+
+
 def _fullfs_available():
     """can a co-process get a private tmpfs (user + mount namespace)?  Where it cannot, the
     full-file-system programs are skipped (and the evidence says so) instead of raising alarms"""
@@ -116,7 +141,8 @@ def check_C05(tier, rng, jobs):
                    times=["1"], metas=["m1"], dests=[], collide=True,
                    fam=["write", "insert", "remove", "lookup"], maxops=4 if q else 5,
                    invariants=["TypeOK", "LookupRefinesMap", "ListAgrees"],
-                   properties=["RemovalFrame"])]
+                   properties=["RemovalFrame"]),
+          _mc_index("C05", tier, 2 if q else 3, 1), _tlaps_index("C05")]
     nprog = 24 if q else 200
     progs = [G.history_program(rng, rng.choice([15, 30, 60]) if q else rng.choice([40, 80, 150]),
                                nkeys=rng.choice([3, 6, 12]), ndata=rng.choice([3, 5]),
@@ -139,7 +165,7 @@ def check_C05(tier, rng, jobs):
 
 def check_C10(tier, rng, jobs):
     q = tier == QUICK
-    mc = [_mc_index("C10", tier, 3, 1 if q else 2),
+    mc = [_mc_index("C10", tier, 3, 1 if q else 2), _tlaps_index("C10"),
           _mc_core("C10", "history", tier, keys=["k1", "k2"], datas=["d1", "d2"], algos=["sha256"],
                    times=["1"], metas=["m1"], dests=[],
                    fam=["write", "insert", "remove", "lookup", "stray"], maxops=4 if q else 5,
@@ -407,7 +433,7 @@ def check_C19(tier, rng, jobs):
 
 def check_C06(tier, rng, jobs):
     q = tier == QUICK
-    mc = [_mc_index("C06", tier, 3, 1 if q else 2)]
+    mc = [_mc_index("C06", tier, 3, 1 if q else 2), _tlaps_index("C06")]
     progs = [G.index_damage_program(rng, nrec=rng.choice([1, 2, 3]), flips=(120 if q else "all"),
                                     cuts=("all" if not q else 120))
              for _ in range(8 if q else 24)]
